@@ -75,8 +75,19 @@ def shard(ctx):
         model = json.loads(json.dumps(doc))     # normalise (tuples etc.)
         for sname, fn in ser.STYLES.items():
             text, pos, kinds = fn(doc, rng)
+            # transport variants that leave the meaning unchanged: CRLF line ends, leading/trailing blank lines, tab-indented JSON
+            tr = rng.choice(["", "", "", "+crlf", "+blank-lines", "+tabs"])
+            if tr == "+crlf":
+                text = text.replace("\n", "\r\n")
+            elif tr == "+blank-lines":
+                text = "\n" * rng.randint(1, 2) + text + "\n" * rng.randint(1, 2)
+            elif tr == "+tabs" and sname == "json-pretty":
+                text = "\n".join("\t" * (len(ln) - len(ln.lstrip(" "))) + ln.lstrip(" ") for ln in text.split("\n"))
+            else:
+                tr = ""
+            sname = sname + tr
             for k in set(kinds.values()):
-                ctx.res.extra.setdefault("spelling_x_style", set()).add("%s:%s" % (sname, k))
+                ctx.res.extra.setdefault("spelling_x_style", set()).add("%s:%s" % (sname.split("+")[0], k))
             # ---- (a) hooked loader probes, both loaders
             for which in ("validate", "serde"):
                 r = ctx.w.run({"k": "load", "which": which, "text": text})
